@@ -740,6 +740,9 @@ func entryToAttr(ino uint64, e metadata.Attr, out *fuse.Attr) fusefs.StableAttr 
 	out.Blksize = blockSize
 	out.Blocks = (out.Size + uint64(out.Blksize) - 1) / uint64(out.Blksize) * physicalBlockRatio
 	mtime := e.ModTime
+	if mtime.IsZero() {
+		mtime = time.Unix(0, 0) // the TOC leaves out a modtime equal to the epoch
+	}
 	out.SetTimes(nil, &mtime, nil)
 	out.Mode = fileModeToSystemMode(e.Mode)
 	out.Owner = fuse.Owner{Uid: uint32(e.UID), Gid: uint32(e.GID)}
